@@ -259,9 +259,9 @@ NAMES_RICH = ['J. Smith', "O'Neil, Pat", 'Jean-Luc P.', 'A B', 'A. B.', 'Ab', 'a
 def gen_weight(rng, kinds=('int', 'dec', 'frac')):
     k = rng.choice(kinds)
     if k == 'int':
-        return {'k': 'int', 'v': str(rng.choice([1, 1, 1, 2, 3, 5, 12, 0, 10 ** 12]))}
+        return {'k': 'int', 'v': str(rng.choice([1, 1, 1, 2, 3, 5, 12, 0, 4000]))}
     if k == 'dec':
-        return {'k': 'dec', 'v': rng.choice(['1.5', '0.25', '2', '3.0', '10.125', '1.50', '7', '0.001', '100'])}
+        return {'k': 'dec', 'v': rng.choice(['1.5', '0.25', '2', '3.0', '10.125', '1.50', '7', '0.001', '100', '1000000000000.5'])}
     return {'k': 'frac', 'v': rng.choice(['2', '3', '1', '7'])}       # integral Fractions only; proper ones are the hazard
 
 
@@ -334,7 +334,7 @@ def mutate_text(rng, text):
             elif kind == 'drop_token':
                 del toks[j]
             elif kind == 'index_out_of_range':
-                toks.insert(min(max(j, 1), len(toks)), str(r.choice([7, 9, 50, 10 ** 6])))
+                toks.insert(min(max(j, 1), len(toks)), str(r.choice([7, 9, 50, 10 ** 4])))
             else:
                 toks.insert(min(max(j, 1), max(len(toks) - 1, 1)), '0')
             lines[i] = ' '.join(toks)
@@ -360,3 +360,16 @@ def mutate_text(rng, text):
         return '\n'.join(lines), kind
     lines.insert(r.randint(0, len(lines)), r.choice(JUNK + ['1 2 3', 'x y', '"a" b', '-2 3 0']))
     return '\n'.join(lines), 'insert_junk_line'
+
+
+def huge_header(text, limit=20000):
+    """a header announcing more candidates than `limit` makes every reader allocate that many names: not generated"""
+    for line in text.split('\n'):
+        for it in line.split():
+            if it.isdigit() and len(it) < 30:
+                try:
+                    if int(it) > limit:
+                        return True
+                except ValueError:
+                    pass
+    return False
